@@ -261,7 +261,7 @@ func FromBlech32(address string) (*Blech32, error) {
 		return nil, err
 	}
 
-	if len(regrouped) < 2 || len(regrouped) > 40+33 {
+	if len(regrouped) < 2+33 || len(regrouped) > 40+33 {
 		return nil, fmt.Errorf("invalid Data Length")
 	}
 
@@ -384,7 +384,10 @@ func ToConfidential(ca *AddressInfo) (string, error) {
 	}
 
 	if strings.HasPrefix(ca.Address, net.Bech32) {
-		b32, _ := FromBech32(ca.Address)
+		b32, err := FromBech32(ca.Address)
+		if err != nil {
+			return "", err
+		}
 		return ToBlech32(&Blech32{
 			Prefix:    net.Blech32,
 			Version:   b32.Version,
@@ -393,7 +396,10 @@ func ToConfidential(ca *AddressInfo) (string, error) {
 		})
 	}
 
-	b58, _ := FromBase58(ca.Address)
+	b58, err := FromBase58(ca.Address)
+	if err != nil {
+		return "", err
+	}
 	return ToBase58Confidential(&Base58Confidential{
 		*b58,
 		net.Confidential,
@@ -656,6 +662,9 @@ func decodeBase58(address string, net network.Network) (int, error) {
 
 	if netID == net.Confidential {
 		prefixPlusBlindKeySize := 34
+		if len(decoded) < prefixPlusBlindKeySize {
+			return 0, errors.New("decoded address is of unknown size")
+		}
 		switch len(decoded[prefixPlusBlindKeySize:]) {
 		case ripemd160Size:
 			prefix := decoded[0]
